@@ -40,7 +40,7 @@ Proof.
 Qed.
 Print Assumptions no_trap_token_priority.
 Example token_priority_nonvacuous :
-  run_pushes true true (pinit 2147483647) [(0%N, false); (0%N, true); (0%N, true); (1%N, false)]
+  run_pushes true true (pinit 2147483647%Z) [(0%N, false); (0%N, true); (0%N, true); (1%N, false)]
   = Some (mkP 2147483643%Z [(0%N, 2147483645%Z); (1%N, 2147483644%Z)],
           [(None, 2147483647%Z); (Some 2147483647%Z, 2147483646%Z); (Some 2147483646%Z, 2147483645%Z); (None, 2147483644%Z)]).
 Proof. vm_compute. reflexivity. Qed.
@@ -49,16 +49,18 @@ Theorem token_priority_old_rule_refuted :
   run_pushes false false (pinit PRIO_INIT) [(0%N, false); (0%N, true)] = None.
 Proof. vm_compute. reflexivity. Qed.
 (* the rule before fix 445c73a let a later sample start at or above a queued token block *)
-Theorem priority_monotone_old_rule_refuted : exists st outs,
-  run_pushes true false (pinit PRIO_INIT) [(0%N, true); (0%N, true); (1%N, false)] = Some (st, outs) /\
-  (exists t c, nth_error outs 1 = Some (Some t, c) /\ exists c2, nth_error outs 2 = Some (None, c2) /\ (c2 >= t)%Z).
-Proof. vm_compute. do 2 eexists. split; [reflexivity|]. do 2 eexists. split; [reflexivity|]. eexists. split; [reflexivity|]. discriminate. Qed.
+Theorem priority_monotone_old_rule_refuted :
+  match run_pushes true false (pinit PRIO_INIT) [(0%N, true); (0%N, true); (1%N, false)] with
+  | Some (_, [_; (Some t, _); (None, c2)]) => (t <=? c2)%Z = true   (* the later sample is not below the token block *)
+  | _ => False
+  end.
+Proof. vm_compute. reflexivity. Qed.
 
 (* fallback-minimizer mask: total for every k <= 32 and equal to 4^k - 1 *)
 Theorem fb_mask_no_trap : forall k : N, (k <= 32)%N -> fb_mask fb_mask_guarded k = Some (4 ^ k - 1)%N.
 Proof. exact Profile_proofs.fb_mask_total. Qed.
 Print Assumptions fb_mask_no_trap.
-Theorem fb_mask_old_rule_refuted : fb_mask false 32 = None.
+Theorem fb_mask_old_rule_refuted : fb_mask false 32%N = None.
 Proof. vm_compute. reflexivity. Qed.
 
 (* LZDiff::estimate tail: the repaired form never traps, is what an optimised build computes, and equals the
@@ -72,7 +74,7 @@ Proof.
   intros He Ht Hi v. exact (Profile_proofs.est_tail_agrees_when_no_trap est ts i v He Ht Hi).
 Qed.
 Print Assumptions estimate_tail_profile_independent.
-Theorem estimate_tail_old_rule_refuted : est_tail false 10 100 103 = None /\ est_tail true 10 100 103 = Some 7%N.
+Theorem estimate_tail_old_rule_refuted : est_tail false 10%N 100%N 103%N = None /\ est_tail true 10%N 100%N 103%N = Some 7%N.
 Proof. vm_compute. split; reflexivity. Qed.
 
 (* ---- Part 2: no-trap theorems proved in the other properties' models (statements pinned there) ---- *)
